@@ -1146,4 +1146,352 @@ theorem cPhyCmd_emits (t : Trx) (c : PhyCmd) (hq : t.queue = []) (hst : t.state 
     rw [n1 hq, ← he.1]
   | raw ty => exact absurd hv (by simp [ValidCmd])
 
+/-! ### `trx_ctrl_read_cb` -/
+
+/-- the C string at the end of a NUL-free prefix `pre`: up to the first NUL -/
+theorem cstrAt_mid (pre s post : List Nat) (cap : Nat) (hs : ∀ c ∈ s, c ≠ 0) (hc : pre.length < cap) :
+    cstrAt (pre ++ s ++ 0 :: post) cap pre.length = .ok s := by
+  simp only [cstrAt]
+  rw [if_neg (by omega)]
+  have hd : (pre ++ s ++ 0 :: post).drop pre.length = s ++ 0 :: post := by
+    rw [List.append_assoc, List.drop_left]
+  rw [hd]
+  have h1 : (s ++ 0 :: post).contains 0 = true := by simp
+  simp only [h1, if_true]
+  rw [List.takeWhile_append_of_pos (fun c hc => by simpa using hs c hc)]
+  simp
+
+/-- a C string can be taken at every offset up to the terminator the callback wrote -/
+theorem cstrAt_ok (data : List Nat) (cap off : Nat) (ho : off ≤ data.length) (hc : data.length < cap) :
+    ∃ s, cstrAt (data ++ [0]) cap off = .ok s := by
+  simp only [cstrAt]
+  rw [if_neg (by omega)]
+  have h1 : ((data ++ [0]).drop off).contains 0 = true := by
+    rw [List.drop_append_of_le_length ho]
+    simp
+  simp only [h1, if_true]
+  exact ⟨_, rfl⟩
+
+/-- `fsmChg`/`ctrlSend`/dispatch never lower the error-log flag, keep the queue -/
+theorem measureRspCb_data (t : Trx) (r : List Nat) :
+    (measureRspCb t r).queue = t.queue ∧ (measureRspCb t r).state = t.state ∧
+    (measureRspCb t r).prevState = t.prevState ∧ (t.elog = true → (measureRspCb t r).elog = true) := by
+  simp only [measureRspCb]
+  split
+  · exact ⟨rfl, rfl, rfl, fun _ => rfl⟩
+  · split
+    · exact ⟨rfl, rfl, rfl, fun _ => rfl⟩
+    · exact ⟨rfl, rfl, rfl, fun h => h⟩
+
+theorem rspDispatch_ok (t : Trx) (c4 data : List Nat) (hst : t.state < 4) (hps : t.prevState < 4)
+    (hlen : data.length < trxcBufSize) :
+    ∃ t', rspDispatch t c4 (data ++ [0]) data.length = .ok t' ∧ t'.queue = t.queue ∧ t'.state < 4 ∧
+      (t.elog = true → t'.elog = true) := by
+  unfold rspDispatch
+  split
+  · obtain ⟨t', h, sd, _, _, hs⟩ := fsmChg_ok { t with poweredUp := true } stActive hst (by decide)
+    exact ⟨t', h, sd.queue, hs, fun e => by rw [sd.elog]; exact e⟩
+  · split
+    · obtain ⟨t', h, sd, _, _, hs⟩ := fsmChg_ok { t with poweredUp := false } stIdle hst (by decide)
+      exact ⟨t', h, sd.queue, hs, fun e => by rw [sd.elog]; exact e⟩
+    · split
+      · obtain ⟨r, hr⟩ := cstrAt_ok data trxcBufSize (min data.length 14) (Nat.min_le_left _ _) hlen
+        simp only [hr, bind, Except.bind, pure, Except.pure]
+        obtain ⟨m1, m2, m3, m4⟩ := measureRspCb_data t r
+        exact ⟨_, rfl, m1, by rw [m2]; exact hst, m4⟩
+      · split
+        · obtain ⟨t', h, sd, _, _, hs⟩ := fsmChg_ok t stIdle hst (by decide)
+          exact ⟨t', h, sd.queue, hs, fun e => by rw [sd.elog]; exact e⟩
+        · obtain ⟨t', h, sd, _, _, hs⟩ := fsmChg_ok t t.prevState hst hps
+          exact ⟨t', h, sd.queue, hs, fun e => by rw [sd.elog]; exact e⟩
+
+/-- from the status check on, nothing can fault -/
+theorem rspStatus_ok (t : Trx) (tcm : CtrlMsg) (rest : List CtrlMsg) (data s4 : List Nat) (p : Option Nat)
+    (hst : t.state < 4) (hps : t.prevState < 4) (hlen : data.length < trxcBufSize) :
+    ∃ r, rspStatus t tcm rest (data ++ [0]) s4 p data.length = .ok r := by
+  cases p with
+  | none => exact ⟨_, rfl⟩
+  | some i =>
+    simp only [rspStatus]
+    cases hsc : sscanfD (s4.drop (i + 1)) with
+    | none => exact ⟨_, rfl⟩
+    | some resp =>
+      simp only []
+      by_cases hc : resp ≠ 0 ∧ tcm.critical ≠ 0
+      · rw [if_pos hc]; exact ⟨_, rfl⟩
+      · rw [if_neg hc]
+        have hst' : (if resp ≠ 0 then { t with elog := true } else t).state < 4 := by split <;> exact hst
+        have hps' : (if resp ≠ 0 then { t with elog := true } else t).prevState < 4 := by split <;> exact hps
+        obtain ⟨t2, h2, _, hs2, _⟩ := rspDispatch_ok _ (cmdStrAt tcm 4) data hst' hps' hlen
+        obtain ⟨t3, h3, _⟩ := ctrlSend_ok { t2 with queue := rest } hs2
+        simp only [bind, Except.bind, pure, Except.pure]
+        rw [h2]
+        simp only []
+        rw [h3]
+        exact ⟨_, rfl⟩
+
+theorem takeWhile_ne_zero_lt (l : List Nat) :
+    ((l ++ [0]).takeWhile (fun x => decide (x ≠ 0))).length ≤ l.length := by
+  induction l with
+  | nil => simp
+  | cons x xs ih =>
+    simp only [List.cons_append, List.takeWhile_cons]
+    split
+    · simp only [List.length_cons]; omega
+    · simp
+
+/-- `trx_ctrl_read_cb` never faults: whatever the datagram and the pending commands are -/
+theorem cReadCb_ok (t : Trx) (d : List Nat) (hst : t.state < 4) (hps : t.prevState < 4) :
+    ∃ r, cReadCb t d = .ok r := by
+  have hcap : trxcBufSize = 1024 := by decide
+  generalize hdata : d.take (trxcBufSize - 1) = data
+  have hlen : data.length < trxcBufSize := by
+    rw [← hdata]; simp only [List.length_take, hcap]; omega
+  unfold cReadCb
+  simp only [bind, Except.bind, pure, Except.pure, hdata]
+  by_cases hlen0 : data.length = 0
+  · rw [if_pos hlen0]; exact ⟨_, rfl⟩
+  · rw [if_neg hlen0]
+    obtain ⟨s0, hs0⟩ := cstrAt_ok data trxcBufSize 0 (by omega) hlen
+    rw [hs0]
+    simp only []
+    by_cases hrsp : (!strncmpEq s0 (str "RSP ") 4) = true
+    · rw [if_pos hrsp]; exact ⟨_, rfl⟩
+    · rw [if_neg hrsp]
+      -- the signature matched, so at least four octets were read
+      have h4 : 4 ≤ data.length := by
+        have hs0' := hs0
+        simp only [cstrAt, List.drop_zero] at hs0'
+        rw [if_neg (by omega)] at hs0'
+        have h1 : (data ++ [0]).contains 0 = true := by simp
+        simp only [h1, if_true, Except.ok.injEq] at hs0'
+        have hle : s0.length ≤ data.length := by rw [← hs0']; exact takeWhile_ne_zero_lt data
+        have h4' : (s0.take 4).length = 4 := by
+          have hh : strncmpEq s0 (str "RSP ") 4 = true := by simpa using hrsp
+          simp only [strncmpEq, beq_iff_eq] at hh
+          rw [hh]; decide
+        simp only [List.length_take] at h4'
+        omega
+      obtain ⟨s4, hs4⟩ := cstrAt_ok data trxcBufSize 4 h4 hlen
+      rw [hs4]
+      simp only []
+      cases hq : t.queue with
+      | nil => exact ⟨_, rfl⟩
+      | cons tcm rest =>
+        simp only []
+        by_cases hm : (!strncmpEq s4 (cmdStrAt tcm 4) (rspLenOf (strchrIdx s4 32) s0.length)) = true
+        · rw [if_pos hm]; exact ⟨_, rfl⟩
+        · rw [if_neg hm]; exact rspStatus_ok _ _ _ _ _ _ hst hps hlen
+
+/-! ### replies of the form the transceiver produces -/
+
+/-- `RSP <verb> <status><rest><results>\0` for the command `CMD <verb><rest>` -/
+def replyTo (verb rest results : List Nat) (status : Int) : List Nat :=
+  str "RSP " ++ verb ++ [32] ++ fmtD status ++ rest ++ results ++ [0]
+
+structure ReplyHyp (verb rest results : List Nat) : Prop where
+  hverb : ∀ c ∈ verb, c ≠ 32 ∧ c ≠ 0
+  hrest : ∀ c ∈ rest, c ≠ 0
+  hresults : ∀ c ∈ results, c ≠ 0
+  hnodigit : NoDigitHead (rest ++ results)
+
+theorem idxOf_verb (verb tail : List Nat) (h : ∀ c ∈ verb, c ≠ 32) : (verb ++ 32 :: tail).idxOf 32 = verb.length := by
+  rw [List.idxOf_append]
+  rw [if_neg (fun hm => h 32 hm rfl)]
+  simp
+
+/-- what is left of `trx_ctrl_read_cb` once the reply matched and the status `s` was read -/
+def replyOutcome (t : Trx) (tcm : CtrlMsg) (q : List CtrlMsg) (c4 d : List Nat) (s : Int) : Except Fault (Int × Trx) :=
+  let t1 := { t with ev := t.ev ++ [Event.timerDel] }
+  let t2 := if s ≠ 0 then { t1 with elog := true } else t1
+  if s ≠ 0 ∧ tcm.critical ≠ 0 then .ok (rspError t2)
+  else do
+    let t3 ← rspDispatch t2 c4 (d ++ [0]) d.length
+    let t4 ← ctrlSend { t3 with queue := q }
+    pure (0, t4)
+
+/-- reading the reply: everything up to the status conversion -/
+theorem cReadCb_reply (t : Trx) (tcm : CtrlMsg) (q : List CtrlMsg) (verb rest results : List Nat) (s : Int)
+    (hq : t.queue = tcm :: q) (hcmd : tcm.cmd = str "CMD " ++ verb ++ rest)
+    (hh : ReplyHyp verb rest results) (hs1 : -2147483648 ≤ s) (hs2 : s ≤ 2147483647)
+    (hlen : (replyTo verb rest results s).length ≤ trxcBufSize - 1) :
+    cReadCb t (replyTo verb rest results s) = replyOutcome t tcm q (verb ++ rest) (replyTo verb rest results s) s := by
+  have hcap : trxcBufSize = 1024 := by decide
+  -- the text between the signature and the NUL
+  generalize hbody : verb ++ [32] ++ fmtD s ++ rest ++ results = body
+  have hd : replyTo verb rest results s = str "RSP " ++ body ++ [0] := by
+    rw [← hbody]; simp [replyTo]
+  have hbnz : ∀ c ∈ body, c ≠ 0 := by
+    intro c hc
+    rw [← hbody] at hc
+    simp only [List.mem_append, List.mem_singleton] at hc
+    rcases hc with (((hc | hc) | hc) | hc) | hc
+    · exact (hh.hverb c hc).2
+    · omega
+    · exact fmtD_nz s c hc
+    · exact hh.hrest c hc
+    · exact hh.hresults c hc
+  have hrnz : ∀ c ∈ str "RSP " ++ body, c ≠ 0 := by
+    intro c hc
+    rw [List.mem_append] at hc
+    rcases hc with hc | hc
+    · exact str_nz "RSP " (by decide) c hc
+    · exact hbnz c hc
+  have htake : (replyTo verb rest results s).take (trxcBufSize - 1) = replyTo verb rest results s :=
+    List.take_of_length_le hlen
+  have hlen' : (replyTo verb rest results s).length < trxcBufSize := by omega
+  have hl0 : (replyTo verb rest results s).length ≠ 0 := by rw [hd]; simp
+  have hs0 : cstrAt (replyTo verb rest results s ++ [0]) trxcBufSize 0 = .ok (str "RSP " ++ body) := by
+    have := cstrAt_mid [] (str "RSP " ++ body) [0] trxcBufSize hrnz (by rw [hcap]; decide)
+    simpa [hd] using this
+  have hs4 : cstrAt (replyTo verb rest results s ++ [0]) trxcBufSize 4 = .ok body := by
+    have := cstrAt_mid (str "RSP ") body [0] trxcBufSize hbnz (by rw [hcap]; decide)
+    have e : (str "RSP ").length = 4 := by decide
+    rw [e] at this
+    simpa [hd] using this
+  have hsig : strncmpEq (str "RSP " ++ body) (str "RSP ") 4 = true := by
+    simp only [strncmpEq, beq_iff_eq]
+    rw [List.take_left' (by decide)]
+    rfl
+  have hidx : strchrIdx body 32 = some verb.length := by
+    have hi : body.idxOf 32 = verb.length := by
+      rw [← hbody]
+      have : verb ++ [32] ++ fmtD s ++ rest ++ results = verb ++ 32 :: (fmtD s ++ rest ++ results) := by simp
+      rw [this]
+      exact idxOf_verb verb _ (fun c hc => (hh.hverb c hc).1)
+    simp only [strchrIdx, hi]
+    rw [if_pos (by rw [← hbody]; simp)]
+  have hc4 : cmdStrAt tcm 4 = verb ++ rest := by
+    simp only [cmdStrAt, hcmd]
+    have : (str "CMD " ++ verb ++ rest).drop 4 = verb ++ rest := by
+      rw [List.append_assoc, List.drop_left' (by decide)]
+    rw [this]
+    exact takeWhile_all _ (fun c hc => by
+      rw [List.mem_append] at hc
+      rcases hc with hc | hc
+      · simpa using (hh.hverb c hc).2
+      · simpa using hh.hrest c hc)
+  have hmatch : strncmpEq body (verb ++ rest) verb.length = true := by
+    simp only [strncmpEq, beq_iff_eq]
+    rw [← hbody, List.take_left' rfl]
+    simp only [List.append_assoc]
+    rw [List.take_left' rfl]
+  have hscan : sscanfD (body.drop (verb.length + 1)) = some s := by
+    have : body.drop (verb.length + 1) = fmtD s ++ (rest ++ results) := by
+      rw [← hbody]
+      have e : verb ++ [32] ++ fmtD s ++ rest ++ results = (verb ++ [32]) ++ (fmtD s ++ (rest ++ results)) := by simp
+      rw [e, List.drop_left' (by simp)]
+    rw [this]
+    exact sscanfD_fmtD s _ hs1 hs2 hh.hnodigit
+  unfold cReadCb
+  simp only [bind, Except.bind, pure, Except.pure, htake]
+  rw [if_neg hl0, hs0]
+  simp only [hsig, Bool.not_true, Bool.false_eq_true, if_false, hs4, hidx, rspLenOf, hq, hc4, hmatch, rspStatus, hscan,
+    replyOutcome, bind, Except.bind, pure, Except.pure]
+
+
+/-- the reply is accepted: the pending command leaves the queue (and the next one is sent) -/
+theorem replyOutcome_accept (t : Trx) (tcm : CtrlMsg) (q : List CtrlMsg) (c4 d : List Nat) (s : Int)
+    (hst : t.state < 4) (hps : t.prevState < 4) (hlen : d.length < trxcBufSize)
+    (hacc : ¬ (s ≠ 0 ∧ tcm.critical ≠ 0)) :
+    ∃ t', replyOutcome t tcm q c4 d s = .ok (0, t') ∧ t'.queue = q ∧ t'.state < 4 ∧ (s ≠ 0 → t'.elog = true) := by
+  simp only [replyOutcome]
+  rw [if_neg hacc]
+  generalize ht2 : (if s ≠ 0 then { t with ev := t.ev ++ [Event.timerDel], elog := true }
+    else { t with ev := t.ev ++ [Event.timerDel] } : Trx) = t2
+  have hst2 : t2.state < 4 := by rw [← ht2]; split <;> exact hst
+  have hps2 : t2.prevState < 4 := by rw [← ht2]; split <;> exact hps
+  have hel2 : s ≠ 0 → t2.elog = true := by intro h; rw [← ht2, if_pos h]
+  obtain ⟨t3, h3, _, hs3, he3⟩ := rspDispatch_ok t2 c4 d hst2 hps2 hlen
+  obtain ⟨t4, h4, sd, hs4, _⟩ := ctrlSend_ok { t3 with queue := q } hs3
+  simp only [bind, Except.bind, pure, Except.pure]
+  rw [h3]
+  simp only []
+  rw [h4]
+  exact ⟨t4, rfl, sd.queue, hs4, fun h => by rw [sd.elog]; exact he3 (hel2 h)⟩
+
+/-- the reply carries an error status for a critical command: the interface is terminated -/
+theorem replyOutcome_reject (t : Trx) (tcm : CtrlMsg) (q : List CtrlMsg) (c4 d : List Nat) (s : Int)
+    (hrej : s ≠ 0 ∧ tcm.critical ≠ 0) :
+    ∃ t', replyOutcome t tcm q c4 d s = .ok (-eIO, t') ∧ t'.queue = t.queue ∧ t'.elog = true ∧
+      t'.ev = t.ev ++ [Event.timerDel, Event.term termError] := by
+  simp only [replyOutcome]
+  rw [if_pos hrej, if_pos hrej.1]
+  exact ⟨_, rfl, rfl, rfl, by simp⟩
+
+
+theorem str_measure : str "MEASURE" = [77, 69, 65, 83, 85, 82, 69] := by decide
+theorem fmtD_zero : fmtD 0 = [48] := by decide
+theorem str_poweron : str "POWERON" = [80, 79, 87, 69, 82, 79, 78] := by decide
+theorem str_poweroff : str "POWEROFF" = [80, 79, 87, 69, 82, 79, 70, 70] := by decide
+
+/-- the dispatch for a `CMD MEASURE <kHz>` answered `RSP MEASURE 0 <kHz> <dBm>`: the ARFCN and the
+power level reach `trxcon_phyif_handle_rsp` -/
+theorem rspDispatch_measure (t : Trx) (a : Nat) (dbm : Int) (ha : CanonArfcn a)
+    (h1 : -2147483648 ≤ dbm) (h2 : dbm ≤ 2147483647) :
+    let khz := fmtU (arfcn2freq10 a false * 100)
+    let d := replyTo (str "MEASURE") (32 :: khz) (32 :: fmtD dbm) 0
+    d.length < trxcBufSize ∧
+    rspDispatch t (str "MEASURE" ++ 32 :: khz) (d ++ [0]) d.length = .ok { t with rsp := some (a, dbm) } := by
+  intro khz d
+  have hcap : trxcBufSize = 1024 := by decide
+  have hkl : khz.length ≤ 10 := fmtU_len_le (arfcn2freq10 a false * 100)
+  have hdl := fmtD_len_le dbm
+  -- the datagram: 14 octets "RSP MEASURE 0 ", then "<kHz> <dBm>", then NUL
+  have hd : d = (str "RSP MEASURE 0 ") ++ (khz ++ [32] ++ fmtD dbm) ++ 0 :: [] := by
+    simp only [d, replyTo, fmtD_zero]
+    have : str "RSP MEASURE 0 " = str "RSP " ++ str "MEASURE" ++ [32] ++ [48] ++ [32] := by decide
+    rw [this]; simp
+  have hlen : d.length < trxcBufSize := by
+    rw [hd, hcap]
+    simp only [List.length_append, List.length_cons, List.length_nil]
+    have : (str "RSP MEASURE 0 ").length = 14 := by decide
+    omega
+  refine ⟨hlen, ?_⟩
+  have hmin : min d.length 14 = 14 := by
+    rw [hd]
+    simp only [List.length_append, List.length_cons, List.length_nil]
+    have : (str "RSP MEASURE 0 ").length = 14 := by decide
+    omega
+  have hr : cstrAt (d ++ [0]) trxcBufSize 14 = .ok (khz ++ [32] ++ fmtD dbm) := by
+    have hnz : ∀ c ∈ khz ++ [32] ++ fmtD dbm, c ≠ 0 := by
+      intro c hc
+      simp only [List.mem_append, List.mem_singleton] at hc
+      rcases hc with (hc | hc) | hc
+      · exact fmtU_nz _ c hc
+      · omega
+      · exact fmtD_nz _ c hc
+    have := cstrAt_mid (str "RSP MEASURE 0 ") (khz ++ [32] ++ fmtD dbm) [0] trxcBufSize hnz (by rw [hcap]; decide)
+    have e : (str "RSP MEASURE 0 ").length = 14 := by decide
+    rw [e] at this
+    rw [hd]
+    simpa using this
+  have hscan : sscanfUD (khz ++ [32] ++ fmtD dbm) = some (arfcn2freq10 a false * 100, dbm) := by
+    have hv := arfcn2freq10_canon a ha
+    have hlt : arfcn2freq10 a false * 100 < 4294967296 := by
+      unfold CanonArfcn at ha
+      rw [hv]; repeat' split
+      all_goals omega
+    have := sscanfUD_fmt (arfcn2freq10 a false * 100) dbm [] hlt h1 h2 noDigitHead_nil
+    simpa using this
+  have hrt := freq_roundtrip a ha
+  have hf16 : u16 (arfcn2freq10 a false * 100 / 100) = arfcn2freq10 a false := by
+    have hv := arfcn2freq10_canon a ha
+    have hlt : arfcn2freq10 a false < 65536 := by
+      unfold CanonArfcn at ha
+      rw [hv]; repeat' split
+      all_goals omega
+    simp only [u16]; omega
+  have ha16 : a ≠ 65535 := by unfold CanonArfcn at ha; omega
+  unfold rspDispatch
+  have e1 : startsWith (str "MEASURE" ++ 32 :: khz) (str "POWERON") = false := by
+    simp [startsWith, strncmpEq, str_measure, str_poweron]
+  have e2 : startsWith (str "MEASURE" ++ 32 :: khz) (str "POWEROFF") = false := by
+    simp [startsWith, strncmpEq, str_measure, str_poweroff]
+  have e3 : startsWith (str "MEASURE" ++ 32 :: khz) (str "MEASURE") = true := by
+    simp [startsWith, strncmpEq, str_measure]
+  simp only [e1, e2, e3, Bool.false_eq_true, if_false, if_true, hmin, hr, bind, Except.bind, pure, Except.pure,
+    measureRspCb, hscan, hf16, hrt]
+  rw [if_neg ha16]
+
 end OsmoVerif.TrxconIf
